@@ -614,6 +614,19 @@ def _invalid_table(vd):
     T["inside: region of 5 values"] = lambda: vd.inside((e, n), (0, 1, 0, 1, 2))
     # (pad_region is not in this table: it only adds the padding to the four numbers it is given - nothing is aligned or guessed from
     # an inverted region, and every consumer of the result rejects it)
+    # a THIRD array that disagrees (more data components than coordinates; an extra coordinate of another shape): seeds C20-11 / C20-12
+    T["check_fit_input: third data component longer"] = lambda: vd.base.utils.check_fit_input((e, n), (d0, d1, np.concatenate([d0, d0[:1]])), None)
+    T["train_test_split: third data component longer"] = lambda: vd.train_test_split((e, n), (d0, d1, np.concatenate([d0, d0[:1]])), random_state=0)
+    T["train_test_split (blocked): third data component longer"] = lambda: vd.train_test_split((e, n), (d0, d1, np.concatenate([d0, d0[:1]])), random_state=0, spacing=1.0)
+    T["Vector.fit: third data component longer"] = lambda: vd.Vector([vd.Trend(1), vd.Trend(1), vd.Trend(0)]).fit((e, n), (d0, d1, np.concatenate([d0, d0[:1]])))
+    T["BlockReduce.filter: third data component longer"] = lambda: vd.BlockReduce(np.mean, spacing=1.0).filter((e, n), (d0, d1, np.concatenate([d0, d0[:1]])))
+    T["Trend.fit: third weight component longer"] = lambda: vd.Vector([vd.Trend(1), vd.Trend(1), vd.Trend(0)]).fit((e, n), (d0, d1, d0), (w0, w0, np.concatenate([w0, w0[:1]])))
+    T["rolling_window: extra coordinate of another shape"] = lambda: vd.rolling_window((e, n, e[:-2]), size=1.0, spacing=0.5)
+    T["expanding_window: extra coordinate of another shape"] = lambda: vd.expanding_window((e, n, e[:-2]), (1.0, 1.0), [1.0])
+    T["block_split: extra coordinate of another shape"] = lambda: vd.block_split((e, n, e[:-2]), spacing=1.0)
+    T["inside: northing of another shape"] = lambda: vd.inside((e, n[:-1]), (0, 1, 0, 1))
+    T["get_region-free: distance_mask data coordinate shapes"] = lambda: vd.distance_mask((e, n[:-1]), 1.0, coordinates=(np.zeros((2, 2)), np.zeros((2, 2))))
+    T["median_distance: coordinate shapes"] = lambda: vd.median_distance((e, n[:-1]))
     T["expanding_window: coordinate shapes"] = lambda: vd.expanding_window((e, n[:-1]), (1.0, 1.0), [1.0])
     T["BlockReduce.filter: data shorter"] = lambda: vd.BlockReduce(np.mean, spacing=1.0).filter((e, n), d0[:-1])
     T["BlockReduce.filter: weights shorter"] = lambda: vd.BlockReduce(np.average, spacing=1.0).filter((e, n), d0, w0[:-1])
